@@ -511,6 +511,7 @@ class Integrate(Contract):
     name = "_time_integration"
     frame = ("spd", "pos")
     props = ("C03",)
+    clause_props = {2: ("C03", "C07"), 3: ("C03", "C07")}      # the two step relations are SI statements (C07)
 
     def pre(self, env):
         n = env.n
@@ -759,11 +760,12 @@ def job_method(ct, extra_pre=None):
         O.cover("returns")
         post = ct.post(env, old)
         for k, g in enumerate(post):
-            O.prove(f"ensures[{k}]", g, props=ct.props)
+            O.prove(f"ensures[{k}]", g, props=getattr(ct, "clause_props", {}).get(k, ct.props))
         outside = frame_ok(env, old, ct.frame)
         O.prove("frame:modifies-only-" + ",".join(ct.frame[:4]) + ("..." if len(ct.frame) > 4 else ""),
                 not outside, props=ALLP, note=f"writes outside the frame: {outside}")
-    return Job(f"solver.{ct.name}", body, ct.props, functions=[f"{Q}.{ct.name}"], expect_covers=("returns",),
+    allp = tuple(sorted(set(ct.props) | {p for v in getattr(ct, "clause_props", {}).values() for p in v}))
+    return Job(f"solver.{ct.name}", body, allp, functions=[f"{Q}.{ct.name}"], expect_covers=("returns",),
                meta=dict(family="solver-method", method=ct.name))
 
 
